@@ -100,8 +100,27 @@ Definition wf_fields_rl (m : meta) : Prop :=
   wf_field_rl (file_name m) /\ wf_field_rl (title m) /\ wf_field_rl (description m) /\ wf_field_rl (data_type m) /\
   wf_field_rl (modification_type m) /\ wf_field_rl (relates_to m) /\ wf_field_rl (related_files m) /\
   wf_field_rl (publication_date m) /\ wf_field_rl (modification_date m).
+(* a NAME is not stripped on its own: only the whole line is, and the pattern's optional blank eats exactly one
+   U+0020 after the colon.  So a name may START with blanks / tabs; it must not END with whitespace. *)
+Definition wf_name_rl (v : text) : Prop := rstrip_by is_space v = v /\ no_nlcr v = true.
 Definition wf_names_rl (d : list (N * text)) : Prop :=
-  Forall (fun p => wf_field_rl (snd p)) d /\ NoDup (keys d).
+  Forall (fun p => wf_name_rl (snd p)) d /\ NoDup (keys d).
+
+Lemma wf_field_rl_name v : wf_field_rl v -> wf_name_rl v.
+Proof. intros [A B]. split; [|exact B]. unfold wf_value, strip in A. now apply strip_by_fix in A. Qed.
+
+Lemma strip_name_line_r prefix a nm :
+  (match prefix with c :: _ => negb (is_space c) | [] => false end) = true -> rstrip_by is_space nm = nm ->
+  strip (name_line prefix a nm) = name_key prefix a ++ spv nm.
+Proof.
+  intros Hp Hn. destruct (strip_name_key prefix a Hp) as [A B]. unfold name_line. destruct nm as [|c r].
+  - now apply strip_kv.
+  - cbn [spv]. unfold strip in *. apply strip_by_of_fix.
+    + apply lstrip_by_app_fix; [exact A|]. now apply strip_by_fix in B.
+    + replace (name_key prefix a ++ 32%N :: c :: r) with ((name_key prefix a ++ [32%N]) ++ c :: r)
+        by (rewrite <- app_assoc; reflexivity).
+      apply rstrip_by_app_fix; [discriminate|exact Hn].
+Qed.
 
 Lemma wf_field_weaken v : wf_field v -> wf_field_rl v.
 Proof. intros [A B]. split; [exact A|now apply no_break_no_nlcr]. Qed.
@@ -113,7 +132,7 @@ Proof.
 Qed.
 Lemma wf_names_weaken d : wf_names d -> wf_names_rl d.
 Proof.
-  intros [F D]. split; [|exact D]. eapply Forall_impl; [|exact F]. intros p. apply wf_field_weaken.
+  intros [F D]. split; [|exact D]. eapply Forall_impl; [|exact F]. intros p H. now apply wf_field_rl_name, wf_field_weaken.
 Qed.
 
 Lemma no_nlcr_no_nl v : no_nlcr v = true -> forallb (fun c => negb (N.eqb c 10)) v = true.
@@ -151,12 +170,12 @@ Proof.
   destruct nm as [|c r]; [reflexivity|]. unfold spv. now rewrite U.
 Qed.
 
-Lemma parse_line_alt_name_rl au m a nm : wf_value nm -> forallb (fun c => negb (N.eqb c 10)) nm = true ->
+Lemma parse_line_alt_name_rl au m a nm : rstrip_by is_space nm = nm -> forallb (fun c => negb (N.eqb c 10)) nm = true ->
   parse_metadata au m (strip (name_line alt_name_prefix a nm)) =
   rmap (fun nm' => set_alt_names m (assoc_set N.eqb a nm' (alt_names m)))
        (corrected_name au nm (values (alt_names m)) (reserved m)).
 Proof.
-  intros Hv Hb. rewrite strip_name_line; [|reflexivity|exact Hv].
+  intros Hv Hb. rewrite strip_name_line_r; [|reflexivity|exact Hv].
   pose proof (match_name_line_rl alt_name_prefix a nm Hb) as M.
   unfold parse_metadata. rewrite M. clear M.
   unfold name_key, alt_name_prefix. rewrite <- !app_assoc.
@@ -164,7 +183,7 @@ Proof.
 Qed.
 
 Theorem alt_names_roundtrip_rl m' d :
-  Forall (fun p => wf_field_rl (snd p)) d ->
+  Forall (fun p => wf_name_rl (snd p)) d ->
   parse_meta_lines false m' (alt_name_lines d) = Ok (set_alt_names m' (set_all d (alt_names m'))).
 Proof.
   unfold parse_meta_lines. revert m'. induction d as [|[a nm] r IH]; intros m' H.
@@ -196,7 +215,7 @@ Proof.
 Qed.
 
 Lemma alt_name_lines_no_nlcr d :
-  Forall (fun p => wf_field_rl (snd p)) d -> forallb no_nlcr (alt_name_lines d) = true.
+  Forall (fun p => wf_name_rl (snd p)) d -> forallb no_nlcr (alt_name_lines d) = true.
 Proof.
   induction 1 as [|[a nm] r [Hv Hb] Hr IH]; [reflexivity|].
   cbn [alt_name_lines map forallb fst snd]. fold (alt_name_lines r). rewrite IH, andb_true_r.
@@ -298,11 +317,11 @@ Proof.
   now rewrite spv_show_N.
 Qed.
 
-Lemma alt_name_lines_hdr_ok d : Forall (fun p => wf_field_rl (snd p)) d -> Forall hdr_ok (alt_name_lines d).
+Lemma alt_name_lines_hdr_ok d : Forall (fun p => wf_name_rl (snd p)) d -> Forall hdr_ok (alt_name_lines d).
 Proof.
   induction 1 as [|[a nm] r [Hv Hb] Hr IH]; [constructor|].
   cbn [alt_name_lines map fst snd]. constructor; [|exact IH].
-  unfold hdr_ok. cbn [snd] in Hv. rewrite strip_name_line; [|reflexivity|exact Hv].
+  unfold hdr_ok. cbn [snd] in Hv. rewrite strip_name_line_r; [|reflexivity|exact Hv].
   unfold name_key, alt_name_prefix. split; reflexivity.
 Qed.
 
